@@ -62,4 +62,18 @@ def attrClasses : List (String × List String × List String × List (String × 
 /-- exits of `_utils.dtype_to_tensor_type` (the validation `AttrDtype._validate` delegates to) -/
 def dtypeExits : List (String × String × List String) := [("raise", "TypeError(v1)", ["v0 is None"]), ("raise", "TypeError(v1)", ["<except ValueError>"]), ("raise", "TypeError(\"`np.dtype('object')` is not supported as a tensor", ["v2 == np.dtype(object)"]), ("return", "onnx.TensorProto.STRING", ["not (v2 == np.dtype(object))", "v2 == np.dtype(str)"]), ("return", "onnx.helper.np_dtype_to_tensor_dtype(v2)", ["<try>"]), ("raise", "TypeError(v1)", ["<except (KeyError, ValueError)>"])]
 
+/-- the sources of slotting (statements, self = v0, locals alpha-renamed): what `len(inputs)` counts
+    (`BaseVars._flatten/__iter__/__len__`), the minima (`Node.min_input/min_output`,
+    `StandardNode.min_input/min_output`), the popping loops of `Node.to_onnx` -/
+def slotting : List (String × String × List String) := [
+  ("_fields.py", "BaseVars._flatten", ["for v0, v1 in self.__dict__.items():\n    if v1 is None or isinstance(v1, Var):\n        yield (v0, v1)\n    else:\n        yield from ((f'{v0}_{v2}', v3) for v2, v3 in enumerate(v1))"]),
+  ("_fields.py", "BaseVars.__iter__", ["yield from (v1 for v0, v1 in self._flatten())"]),
+  ("_fields.py", "BaseVars.__len__", ["return sum((1 for v0 in self))"]),
+  ("_node.py", "Node.min_input", ["return len(self.inputs)"]),
+  ("_node.py", "Node.min_output", ["return len(self.outputs)"]),
+  ("_standard.py", "StandardNode.min_input", ["return self.schema.min_input"]),
+  ("_standard.py", "StandardNode.min_output", ["return self.schema.min_output"]),
+  ("_node.py", "Node.to_onnx:<while loops>", ["while len(v3) > self.min_input and (not v3[-1]):\n    v3.pop()", "while len(v4) > self.min_output and (not v4[-1]):\n    v4.pop()"])
+]
+
 end Generated.AdaptAttrInventory
